@@ -37,6 +37,10 @@ CLAIMS['C14'] = ('Bounded symbolic model checking of the real OptimizationProble
 CLAIMS['C16'] = ('Bounded symbolic model checking of RadialAperture.clip, RealRays.propagate (Beer-Lambert), SimpleCoating, Surface._trace_real and a 2-surface Optic: '
     'step contract from an arbitrary ray/intensity: zero outside the aperture in the surface frame, exp argument -4 pi k d 1e3/lambda, coating factor, nothing else; 0<=i\'<=i; records = ray intensity; RayFan intensities = traced ones (UF tracer).',
     'exp axiomatised (positivity, monotonicity, congruence); geometry of the step uninterpreted; planes in the wiring run; floats as reals')
+CLAIMS['C15'] = ('Bounded symbolic model checking of the real Tolerancing / Perturbation / samplers / SensitivityAnalysis.run / MonteCarlo.run / CompensatorOptimizer code: '
+    'rows = operands of (nominal + recorded perturbation [+ recorded compensation]), nominal perturbation => nominal values, lens nominal after run() and reset(), sampler cycling and seeded reproducibility; '
+    'operands are uninterpreted functions, sampler draws and compensator evaluation points symbolic; all obligations SMT queries decided unsat.',
+    'numpy RNG stubbed (seeded = function of seed and draw index); scipy stubbed by contract; pandas.DataFrame replaced by a list in symbolic mode; <=2 perturbations x <=3 trials')
 NOT_YET = 'check not built yet in this round (work in progress; see DESIGN.md section 6 for the plan)'
 
 props = [json.loads(l) for l in open(os.path.join(ROOT, 'properties.jsonl'))]
